@@ -399,7 +399,7 @@ Proof. cbn [wf_names_act]. induction body as [|x r IH]; [reflexivity|]. cbn [act
 
 Lemma act_events_wf a : wf_names_act a = true -> evs_wf (act_events a).
 Proof.
-  destruct a as [n loc | loc v | mm | mm | t body | x v | fx | h | | c o | r p | e]; cbn [wf_names_act act_events]; intros H;
+  destruct a as [n loc | loc v | mm | mm | t body | x v | fx | h | | c o | r p | pk | e]; cbn [wf_names_act act_events]; intros H;
     try (repeat constructor; fail).
   - repeat constructor. exact H.
   - apply evs_wf_app; [now apply mm_events_wf | repeat constructor].
